@@ -499,6 +499,17 @@ func (fv *FuncVC) specCall(x *SCall, sc *SpecScope) Val {
 			}
 			specFail("len of %s", a.S)
 		case "has":
+			// has(old(m), k) reads the CURRENT domain through the old value of m: for a variable that is not assigned it
+			// is the same as has(m, k), and a "nothing is removed" clause written that way is a tautology. Refused.
+			if len(x.Args) == 2 {
+				if inner, ok := x.Args[0].(*SCall); ok && len(inner.Args) == 1 {
+					if fn, ok := inner.Fun.(*SIdent); ok && (fn.Name == "old" || fn.Name == "before") {
+						if _, isId := inner.Args[0].(*SIdent); isId {
+							specFail("has(%s(m), k) reads the current heap: write %s(has(m, k))", fn.Name, fn.Name)
+						}
+					}
+				}
+			}
 			a := args()
 			m, k := a[0], a[1]
 			if isArraySort(m.S) {
